@@ -651,6 +651,8 @@ func (ft *FuncTr) zeroFillObj(st *State, at *Term, objID *Term, elem types.Type)
 		default:
 			if srt.V == SFn {
 				zero = ft.d.Const("fn_nil", SFn)
+			} else if strings.HasPrefix(srt.V.Name, "TP_") {
+				zero = ft.d.Const("zero_"+srt.V.Name, srt.V)
 			} else {
 				panic(unsupported("zero fill of sort " + srt.V.Name))
 			}
